@@ -16,6 +16,34 @@ def main():
     a = ap.parse_args()
     os.environ["VERIF_TIER"] = a.tier
     import common
+    # Watchdog: the code under check must RETURN.  A quick tier takes 1-4 minutes and a thorough tier at most ~1 h on this
+    # machine; if the process is still running 15-60 times later, the library call it is stuck in (numba loops cannot be
+    # interrupted from Python) is reported as non-termination instead of hanging the caller forever.
+    budget = float(os.environ.get("HITEN_VERIF_WATCHDOG_S", 3600 if a.tier == "quick" else 12 * 3600))
+
+    def expired():
+        import faulthandler
+        import json
+        import time
+        faulthandler.dump_traceback(file=sys.stderr, all_threads=True)
+        common.REPLAYS.mkdir(exist_ok=True)
+        path = common.REPLAYS / f"{a.pid}-nontermination.json"
+        path.write_text(json.dumps({"property": a.pid, "key": "nontermination", "tier": a.tier, "budget_s": budget,
+                                    "written": time.strftime("%Y-%m-%dT%H:%M:%S"),
+                                    "message": "the check did not finish within its watchdog budget; the Python stack at "
+                                               "expiry was printed on stderr"}, indent=1))
+        print(f"VIOLATION property={a.pid} replay={path}", flush=True)
+        print(f"  key=nontermination :: {a.pid} {a.tier} still running after {budget:.0f} s (normal: minutes)", flush=True)
+        try:
+            import subprocess
+            subprocess.run(["pkill", "-P", str(os.getpid())], timeout=10)      # TLC children
+        except Exception:  # noqa
+            pass
+        os._exit(1)
+    import threading
+    wd = threading.Timer(budget, expired)
+    wd.daemon = True
+    wd.start()
     try:
         mod = importlib.import_module(a.pid.lower())
         rc = mod.main(tier=a.tier, replay=a.replay)
